@@ -2,10 +2,17 @@
 # usage: check.sh <property id> [quick|thorough]
 # Decides one property on /repo's current working tree by static analysis (see DESIGN.md).
 # exit 0 = held on everything analysed; 1 = VIOLATION line printed; 2 = the checker could not do its job.
+# thorough = the same rules, additionally under GOOS=windows/darwin load configurations, followed by the
+# validation of the checker on the variant corpus and on the independently seeded changes (analysed only).
 export GOFLAGS=-mod=mod GOPROXY=off GOSUMDB=off GOTOOLCHAIN=local GOWORK=off
 HERE="$(cd "$(dirname "$0")" && pwd)"
 ID="$1"; TIER="${2:-${VERIF_TIER:-quick}}"
 if [ ! -x "$HERE/bin/hlcheck" ] || [ -n "$(find "$HERE/hlcheck" -name '*.go' -newer "$HERE/bin/hlcheck" 2>/dev/null | head -1)" ]; then
   (cd "$HERE/hlcheck" && mkdir -p "$HERE/bin" && go build -o "$HERE/bin/hlcheck" .) || { echo "CHECKER-ERROR build failed"; exit 2; }
 fi
-exec "$HERE/bin/hlcheck" -prop "$ID" -tier "$TIER" -repo "${VERIF_REPO:-/repo}" -verif "$HERE"
+"$HERE/bin/hlcheck" -prop "$ID" -tier "$TIER" -repo "${VERIF_REPO:-/repo}" -verif "$HERE"
+RC=$?
+if [ "$TIER" = "thorough" ] && [ $RC -ne 2 ]; then
+  python3 "$HERE/tools/thorough.py" "$ID" || echo "variant validation could not run"
+fi
+exit $RC
